@@ -43,9 +43,11 @@ def spellings(language, rng):
     tail = rng.choice(["", "", " generated code", " - legacy", ": reason {", " (see docs)"])
     if language == "Python":
         return f"#{sp}{word}{tail}"
+    # an ordinary inline comment may sit on the same line, before the marker comment
+    pre = rng.choice(["", "", "", "/* unused */ ", "/* see below */ /* and here */ "])
     if rng.random() < 0.65:
-        return f"//{sp}{word}{tail}"
-    return f"/*{sp}{word}{tail} */"
+        return f"{pre}//{sp}{word}{tail}"
+    return f"{pre}/*{sp}{word}{tail} */"
 
 
 def decoy_comment(language, rng):
